@@ -119,6 +119,7 @@ pub trait DynTree: Send + Sync {
     fn dump(&self) -> String;
     fn enc(&self) -> Vec<u8>;
     fn usage(&self) -> usize;
+    fn scaled(&self) -> [f64; 3];
     fn self_size(&self) -> usize;
     fn roundtrip(&self) -> Result<Box<dyn DynTree>, String>;
     fn clone_box(&self) -> Box<dyn DynTree>;
@@ -191,6 +192,9 @@ macro_rules! impl_tree {
             }
             fn usage(&self) -> usize {
                 self.space_usage_byte()
+            }
+            fn scaled(&self) -> [f64; 3] {
+                [self.space_usage_KiB(), self.space_usage_MiB(), self.space_usage_GiB()]
             }
             fn self_size(&self) -> usize {
                 std::mem::size_of_val(self)
@@ -460,6 +464,14 @@ macro_rules! rsq_q {
             "occs_smaller" => o_opt(r.occs_smaller(g(0) as u8)),
             "occs_smaller_unchecked" => o_val(unsafe { r.occs_smaller_unchecked(g(0) as u8) }),
             "iter" => o_list(r.iter().map(|x| x as u128)),
+            "prefetch_info" => {
+                r.prefetch_info(g(0));
+                "U".into()
+            }
+            "prefetch_data" => {
+                r.prefetch_data(g(0));
+                "U".into()
+            }
             _ => "bad-op".into(),
         }
     }};
@@ -509,11 +521,17 @@ macro_rules! rsbin_q {
             "n_ones" => o_val(r.n_ones()),
             "n_zeros" => o_val(RankBin::n_zeros(r)),
             "bv_len" => rsbin_q!(@len $wide, r),
+            "prefetch_info" => rsbin_q!(@pfi $wide, r, g(0)),
+            "prefetch_data" => rsbin_q!(@pfd $wide, r, g(0)),
             _ => "bad-op".into(),
         }
     }};
     (@len yes, $r:ident) => { o_val($r.bv_len()) };
     (@len no, $r:ident) => { "bad-op".to_string() };
+    (@pfi yes, $r:ident, $p:expr) => {{ $r.prefetch_info($p); "U".to_string() }};
+    (@pfi no, $r:ident, $p:expr) => { "bad-op".to_string() };
+    (@pfd yes, $r:ident, $p:expr) => {{ $r.prefetch_data($p); "U".to_string() }};
+    (@pfd no, $r:ident, $p:expr) => { "bad-op".to_string() };
 }
 
 macro_rules! da_q {
@@ -952,6 +970,10 @@ impl Interp {
             Slot::Bv(b, _) => match op {
                 "into_iter" => o_list(b.clone().into_iter().map(|x| x as u128)),
                 "n_lines" => o_val(b.n_lines()),
+                "prefetch_line" => {
+                    b.prefetch_line(g(0));
+                    "U".into()
+                }
                 "iterlen" => {
                     // ExactSizeIterator::len after every `next`, including after exhaustion
                     let mut it = b.clone().into_iter();
@@ -1057,18 +1079,26 @@ impl Interp {
     }
 
     fn space(&self, k: usize) -> String {
-        let f = |h: i64, s: usize, u: usize| format!("{} {} {}", h, s, u);
+        // heap bytes, size_of_val, space_usage_byte, then the bit patterns of the KiB/MiB/GiB variants
+        let f = |h: i64, s: usize, u: usize, sc: [f64; 3]| {
+            format!("{} {} {} {:016x} {:016x} {:016x}", h, s, u, sc[0].to_bits(), sc[1].to_bits(), sc[2].to_bits())
+        };
+        macro_rules! sp {
+            ($v:expr, $h:expr) => {
+                f(*$h, std::mem::size_of_val($v), $v.space_usage_byte(), [$v.space_usage_KiB(), $v.space_usage_MiB(), $v.space_usage_GiB()])
+            };
+        }
         match &self.slots[k] {
-            Slot::Qv(q, h) => f(*h, std::mem::size_of_val(q), q.space_usage_byte()),
-            Slot::Rsq256(r, h) => f(*h, std::mem::size_of_val(r), r.space_usage_byte()),
-            Slot::Rsq512(r, h) => f(*h, std::mem::size_of_val(r), r.space_usage_byte()),
-            Slot::Bv(b, h) => f(*h, std::mem::size_of_val(b), b.space_usage_byte()),
-            Slot::Bvm(b, h) => f(*h, std::mem::size_of_val(b), b.space_usage_byte()),
-            Slot::Rsn(r, h) => f(*h, std::mem::size_of_val(r), r.space_usage_byte()),
-            Slot::Rsw(r, h) => f(*h, std::mem::size_of_val(r), r.space_usage_byte()),
-            Slot::Da0(d, h) => f(*h, std::mem::size_of_val(d), d.space_usage_byte()),
-            Slot::Da1(d, h) => f(*h, std::mem::size_of_val(d), d.space_usage_byte()),
-            Slot::Tree(t, h) => f(*h, t.self_size(), t.usage()),
+            Slot::Qv(q, h) => sp!(q, h),
+            Slot::Rsq256(r, h) => sp!(r, h),
+            Slot::Rsq512(r, h) => sp!(r, h),
+            Slot::Bv(b, h) => sp!(b, h),
+            Slot::Bvm(b, h) => sp!(b, h),
+            Slot::Rsn(r, h) => sp!(r, h),
+            Slot::Rsw(r, h) => sp!(r, h),
+            Slot::Da0(d, h) => sp!(d, h),
+            Slot::Da1(d, h) => sp!(d, h),
+            Slot::Tree(t, h) => f(*h, t.self_size(), t.usage(), t.scaled()),
             _ => "bad-slot".into(),
         }
     }
